@@ -68,6 +68,7 @@ class ValTrue(Cut):
 
 
 _BORROW = {}
+_BORROW_BUSY = set()
 
 
 def borrow(W, chk, module, rules, why):
@@ -79,13 +80,18 @@ def borrow(W, chk, module, rules, why):
     if getattr(chk, "_borrowed", False):
         return 0          # a neighbour evaluated on behalf of another check does not borrow in turn
     key = (W.facts_dir, module)
+    if key in _BORROW_BUSY or module == getattr(chk, "pid", None):
+        return 0          # cyclic sharing (A evaluates B which shares A's rules): the outer evaluation already covers them
     if key not in _BORROW:
         sub_ = Check(module, chk.tier)
         sub_._borrowed = True
+        _BORROW_BUSY.add(key)
         try:
             importlib.import_module("rules.%s" % module).run(W, sub_)
         except Exception as ex:   # the neighbour's own check reports its internal errors
             sub_.fail("ENGINE", "exception", str(ex)[:200])
+        finally:
+            _BORROW_BUSY.discard(key)
         _BORROW[key] = sub_
     got = 0
     for o in _BORROW[key].obligations:
